@@ -15,6 +15,7 @@ The two programs are materialised one after the other under the *same* module na
 from __future__ import annotations
 
 import itertools
+import re
 import typing
 
 from harness import core, inputs, progs, tl
@@ -23,7 +24,8 @@ from harness.core import st
 from harness.oracles import snapshot
 
 ID = "C11"
-RULE = ("10 base types x all wrapper chains of length <= 2 x 6 positions (exhaustive), chains of length 3 and random "
+RULE = ("10 base types x all wrapper chains of length <= 2 x 6 positions + 6 'next to the bare type' positions (wrappers declared "
+        "in the defining or in another module; chains <= 2 for named bases, 1 otherwise) (exhaustive), chains of length 3 and random "
         "bases of U sampled; 9 inputs per program; root-position string / ForwardRef / bare-name-from-frame-depth forms; "
         "non-trivial = chain length >= 2, non-root position, or a non-object reference form; distinct by (base, chain, "
         "position, reference form)")
@@ -34,11 +36,14 @@ LEVEL_TEXT = ("All wrapper chains up to length 2 over 10 base types in 6 positio
               "random bases are sampled; each wrapped program is compared with the unwrapped one on valid, wire-form, corrupted "
               "and junk inputs through marshal, unmarshal and codec.")
 LEVEL_NOTE = "trusts that materialising both programs under identical module names makes class-exact snapshots comparable"
-EXHAUSTIVE_NOTE = "chains of length <= 2 x 10 bases x 6 positions, complete on every run"
+EXHAUSTIVE_NOTE = "chains of length <= 2 x 10 bases x 6 positions, plus the 6 next-to-bare positions, complete on every run"
 
 S = U.S
 WRAPPERS = ["newtype", "alias", "stralias", "final", "classvar"]
 POSITIONS = ["root", "list", "dictval", "tuple", "union", "field"]
+# the wrapped type *next to the bare type* (which the walk reaches first), the wrappers declared in the defining
+# module or in another module ("...x"): tuple[T, W], tuple[T, Union[W, None]], fields `a: T; x: W`
+POSITIONS2 = ["tuple2", "tuple2x", "union2", "union2x", "field2", "field2x"]
 
 
 def bases():
@@ -61,7 +66,7 @@ def valid_chain(chain, base, position):
     """chain: inner -> outer"""
     for i, w in enumerate(chain):
         outer = i == len(chain) - 1
-        if w == "final" and not (outer and position in ("root", "field")):
+        if w == "final" and not (outer and position in ("root", "field", "field2", "field2x")):
             return False
         if w == "classvar" and not (outer and position == "root"):
             return False
@@ -78,17 +83,35 @@ def valid_chain(chain, base, position):
     return True
 
 
-def apply_chain(base, chain):
+def apply_chain(base, chain, mod=0):
     spec = base
     for i, w in enumerate(chain):
         if w in ("final", "classvar"):
             spec = {"k": w, "a": [spec]}
         else:
-            spec = {"k": w, "name": f"W{i}_{w}", "mod": 0, "a": [spec]}
+            spec = {"k": w, "name": f"W{i}_{w}", "mod": mod, "a": [spec]}
     return spec
 
 
-def embed(spec, position):
+def again(base):
+    """a second occurrence of `base`: named classes are referred to, everything else is written out again"""
+    b = U.strip(base)
+    if b["k"] == "class":
+        return {"k": "ref", "name": b["name"], "mod": b["mod"]}
+    return base
+
+
+def embed(spec, position, base=None):
+    if position in POSITIONS2:
+        first = base
+        if position.startswith("tuple2"):
+            return {"k": "tuple", "sp": "tuple", "a": [first, spec]}
+        if position.startswith("union2"):
+            return {"k": "tuple", "sp": "tuple", "a": [first, {"k": "optional", "sp": "Union", "a": [spec]}]}
+        final = spec["k"] == "final"
+        return {"k": "class", "name": "Holder", "mod": 0, "flavour": "dataclass", "future": False,
+                "fields": [{"n": "a", "t": first},
+                           {"n": "x", "t": spec["a"][0] if final else spec, **({"final": True} if final else {})}]}
     if position == "root":
         return spec
     if position == "list":
@@ -219,8 +242,20 @@ def outcomes(spec, tag, value_srcs, input_srcs, ref_form="object", bytes_in=None
     return out, enc
 
 
+def two_programs(base, chain, position):
+    if position in POSITIONS2:
+        other = again(base)
+        return (embed(other, position, base=base),
+                embed(apply_chain(other, chain, mod=1 if position.endswith("x") else 0), position, base=base))
+    return embed(base, position), embed(apply_chain(base, chain), position)
+
+
+_ADDR = re.compile(r" at 0x[0-9a-f]+")
+
+
 def _o(r):
-    return ("exc", tl.exc_name(r[1])) if r[0] == "exc" else ("ok", snapshot(r[1]))
+    # object addresses (the text of an iterator turned into a str) differ between two runs of the same program
+    return ("exc", tl.exc_name(r[1])) if r[0] == "exc" else ("ok", _ADDR.sub(" at 0x?", repr(snapshot(r[1]))))
 
 
 def gen_inputs(spec_t, tag, data):
@@ -245,8 +280,7 @@ def gen_inputs(spec_t, tag, data):
 
 def check_case(base_name, base, chain, position, data, col, counter):
     tag = f"c11_{next(counter)}"
-    spec_t = embed(base, position)
-    spec_w = embed(apply_chain(base, chain), position)
+    spec_t, spec_w = two_programs(base, chain, position)
     vals, ins = gen_inputs(spec_t, tag, data)
     ref_t, enc = outcomes(spec_t, tag, vals, ins)
     forms = ["object", "object@clash"]
@@ -285,6 +319,77 @@ def _s(o):
     return f"raises {o[1]}" if o[0] != "ok" else "returns " + repr(o[1])[:120]
 
 
+# ---- function-local classes -------------------------------------------------------------------------
+# A class that only exists inside a function cannot be named by any reference; wrappers made in the same
+# function (NewType, value alias) must nevertheless be transparent wherever the class itself is accepted.
+LOCAL_SRC = '''
+import dataclasses, typing
+def make(chain):
+    @dataclasses.dataclass
+    class Local:
+        n: int
+        tag: str = "t"
+    W = Local
+    for i, w in enumerate(chain):
+        W = typing.NewType(f"W{i}", W) if w == "newtype" else typing.TypeAliasType(f"W{i}", W)
+    @dataclasses.dataclass
+    class HolderT:
+        a: Local
+        x: Local
+    @dataclasses.dataclass
+    class HolderW:
+        a: Local
+        x: W
+    return Local, W, HolderT, HolderW
+'''
+LOCAL_POSITIONS = {
+    "root": lambda L, X, H: X, "list": lambda L, X, H: list[X], "dictval": lambda L, X, H: dict[str, X],
+    "tuple": lambda L, X, H: tuple[int, X], "union": lambda L, X, H: typing.Optional[X],
+    "tuple2": lambda L, X, H: tuple[L, X], "union2": lambda L, X, H: tuple[L, typing.Optional[X]],
+    "vtuple2": lambda L, X, H: tuple[L, list[X]], "field2": lambda L, X, H: H,
+}
+
+
+def check_local(col, counter):
+    import sys as _sys
+    import types as _types
+
+    for chain in [c for n in (1, 2) for c in itertools.product(["newtype", "alias"], repeat=n)]:
+        for pos, build in LOCAL_POSITIONS.items():
+            name = f"c11_local_{next(counter)}"
+            mod = _types.ModuleType(name)
+            _sys.modules[name] = mod
+            try:
+                exec(LOCAL_SRC, mod.__dict__)  # noqa: S102
+                Local, W, HolderT, HolderW = mod.make(chain)
+                T_plain, T_wrapped = build(Local, Local, HolderT), build(Local, W, HolderW)
+                shape = {"root": lambda z: z, "list": lambda z: [z], "dictval": lambda z: {"k": z}, "tuple": lambda z: (1, z),
+                         "union": lambda z: z, "tuple2": lambda z: (z, z), "union2": lambda z: (z, z), "vtuple2": lambda z: (z, [z])}
+                col.ev()
+                col.label("position:local-class:" + pos)
+                col.nt(f"local|{chain}|{pos}")
+                outs = []
+                for T, H in ((T_plain, HolderT), (T_wrapped, HolderW)):
+                    tl.clear_all()
+                    mk = (lambda z, H=H: H(z, z)) if pos == "field2" else shape[pos]
+                    wire = (lambda z: {"a": z, "x": z}) if pos == "field2" else (lambda z: (list(shape[pos](z)) if isinstance(shape[pos](z), tuple) else shape[pos](z)))
+                    v = mk(Local(1, "q"))
+                    o = {"marshal": _o(tl.call(tl.marshal, v, t=T)), "unmarshal": _o(tl.call(tl.unmarshal, T, wire({"n": "1"}))),
+                         "unmarshal-junk": _o(tl.call(tl.unmarshal, T, wire({"zz": object}))), "encode": _o(tl.call(lambda: tl.codec(T).encode(v)))}
+                    o["decode"] = _o(tl.call(lambda: tl.codec(T).decode(tl.codec(T).encode(v))))
+                    outs.append(o)
+                plain, wrapped = outs
+                plain = {k: (a, b.replace("HolderT", "Holder").replace("HolderW", "Holder")) for k, (a, b) in plain.items()}
+                wrapped = {k: (a, b.replace("HolderT", "Holder").replace("HolderW", "Holder")) for k, (a, b) in wrapped.items()}
+                for k in plain:
+                    if plain[k] != wrapped[k]:
+                        col.violation("transparent", {"local": True, "chain": list(chain), "position": pos},
+                                      f"function-local class wrapped by {'>'.join(chain)} at {pos}: {k}: wrapped -> {_s(wrapped[k])}, plain -> {_s(plain[k])}",
+                                      bucket=f"local|{k}|{pos}|{_s(wrapped[k])[:30]}")
+            finally:
+                _sys.modules.pop(name, None)
+
+
 def all_chains(maxlen):
     for n in range(1, maxlen + 1):
         yield from itertools.product(WRAPPERS, repeat=n)
@@ -296,10 +401,15 @@ def exhaustive_cases():
             for chain in all_chains(2):
                 if valid_chain(chain, b, pos):
                     yield bname, b, chain, pos
+        for pos in POSITIONS2:
+            for chain in all_chains(2 if bname in ("dataclass", "recursive", "enum") else 1):
+                if valid_chain(chain, b, pos):
+                    yield bname, b, chain, pos
 
 
 def plan(tier, seed):
     shards = [{"kind": "exh", "mod": 12, "rem": i, "seed": seed * 1000 + i} for i in range(12)]
+    shards.append({"kind": "local", "seed": seed * 1000 + 40})
     for i in range(4):
         shards.append({"kind": "sample", "seed": seed * 1000 + 50 + i, "n": 60 if tier == "quick" else 1500})
     return shards
@@ -307,17 +417,22 @@ def plan(tier, seed):
 
 def run_shard(shard, col):
     counter = itertools.count(shard["seed"] * 100000)
+    if shard["kind"] == "local":
+        check_local(col, counter)
+        col.exhaustive_done = True
+        return
     if shard["kind"] == "exh":
         cases = [c for i, c in enumerate(exhaustive_cases()) if i % shard["mod"] == shard["rem"]]
 
-        def one(data):
-            for bname, b, chain, pos in cases:
-                if col.out_of_time():
-                    return
-                check_case(bname, b, chain, pos, data, col, counter)
-
-        core.drive(st.data(), one, n=1, seed=shard["seed"], col=col)
-        col.exhaustive_done = True
+        # one Hypothesis run per case (a single example for all cases would outgrow Hypothesis's choice buffer)
+        done = 0
+        for i, (bname, b, chain, pos) in enumerate(cases):
+            if col.out_of_time():
+                break
+            core.drive(st.data(), lambda data: check_case(bname, b, chain, pos, data, col, counter),  # noqa: B023
+                       n=1, seed=shard["seed"] * 10007 + i, col=col)
+            done += 1
+        col.exhaustive_done = done == len(cases)
         return
 
     @st.composite
@@ -330,7 +445,7 @@ def run_shard(shard, col):
             bname = "random"
         n = draw(st.sampled_from([3, 3, 2, 1]))
         chain = tuple(draw(st.sampled_from(WRAPPERS)) for _ in range(n))
-        pos = draw(st.sampled_from(POSITIONS))
+        pos = draw(st.sampled_from(POSITIONS + POSITIONS2))
         return bname, b, chain, pos, draw(st.data())
 
     def one(c):
@@ -348,10 +463,12 @@ def run_shard(shard, col):
 
 def replay(clause, case, col):
     counter = itertools.count(987000)
+    if case.get("local"):
+        check_local(col, counter)
+        return
     base, chain, pos = case["base_spec"], tuple(case["chain"]), case["position"]
     tag = f"c11_{next(counter)}"
-    spec_t = embed(base, pos)
-    spec_w = embed(apply_chain(base, chain), pos)
+    spec_t, spec_w = two_programs(base, chain, pos)
     ref_t, enc = outcomes(spec_t, tag, case["values"], case["inputs"])
     got, _ = outcomes(spec_w, tag, case["values"], case["inputs"], ref_form=case["form"], bytes_in=enc)
     col.ev()
